@@ -2,8 +2,8 @@ SPECIFICATION GSpec
 CONSTANTS
   Keys = {1, 2}
   Iters = {1, 2}
-  MaxRev = 5
-  MaxOps = 10
+  MaxRev = 4
+  MaxOps = 9
   Mutant = "none"
 VIEW GView
 CHECK_DEADLOCK FALSE
